@@ -222,6 +222,14 @@ def run_case(case):
     model.on_exec = lambda m, seq, node: rec.log.append(["EXEC", enc_obs(m.simulator.simulator_time), seq])
     accepted_after_init = refused_after_init = 0
     seen_init = False
+    # initialize() and cleanup() remove every listener.  In half of the cases the recorder does NOT subscribe again
+    # to one notification type (chosen by a hash of the sequence) after such a removal: it must then never be
+    # notified of that type again, although it was a listener of it before.
+    import zlib
+    hsh = zlib.crc32(repr((case["variant"], case["cmds"])).encode())
+    ghost = sorted(["START", "STOP", "TIME_CHANGED", "START_REPLICATION", "END_REPLICATION", "WARMUP",
+                    "STARTING", "STOPPING"])[(hsh >> 1) % 8] if hsh & 1 else None
+    removals = 0
     try:
         for ci, cmd in enumerate(case["cmds"]):
             bound = None
@@ -237,6 +245,10 @@ def run_case(case):
             accepted, want_notes = proto.apply(pcmd, None if bound is None else
                                                (float.fromhex(bound) if isinstance(bound, str) else bound))
             err = None
+            if cmd in ("init", "cleanup") and accepted and ghost:
+                removals += 1
+                if removals >= (2 if case["cmds"][0] == "init" else 1) and seen_init:
+                    rec.skip = {ghost}          # from now on nobody listens to this type
             try:
                 if cmd == "init":
                     h.initialize()
@@ -266,6 +278,12 @@ def run_case(case):
                 out.fail("limbo-after-" + cmd, dict(ctx, status=st_))
                 break
             notes = rec.log[n0:]
+            if rec.skip:
+                out.label("listener-not-resubscribed")
+                if any(e[0] in rec.skip for e in notes):
+                    out.fail("notified-after-listeners-were-removed:" + ghost, dict(ctx, got=_sk2(notes)))
+                    break
+                want_notes = [w for w in want_notes if (w if isinstance(w, str) else w[0]) not in rec.skip]
             if err is not None and not isinstance(err, DSOLError):
                 out.fail("raised-%s-%s" % (type(err).__name__, cmd), dict(ctx, err=repr(err)))
                 break
@@ -299,7 +317,7 @@ def run_case(case):
                     if sim.eventlist().size() != proto.pending():
                         out.fail("pending-after-" + cmd, dict(ctx, got=sim.eventlist().size(), want=proto.pending()))
                 if cmd == "endrep":
-                    want_names = ["END_REPLICATION"]
+                    want_names = [x for x in ["END_REPLICATION"] if x not in rec.skip]
                     got_names = [e[0] for e in notes]
                     if got_names != want_names:
                         out.fail("notifications-endrep", dict(ctx, got=got_names))
@@ -366,6 +384,11 @@ def overlap_schedules(tier):
                     continue    # cleanup() from a listener of a command that is still in progress: outside its
                                 # documented use ("clean up after a replication has finished"), see ASSUMPTIONS
                 rapid.append({"overlap": True, "reentrant": note, "outer": outer, "cmd": inner})
+    # two simulators in one process: a handler of simulator A (i.e. A's run thread) commands simulator B
+    for cmd in ("stop", "cleanup", "stop+step", "stop+start"):
+        rapid.append({"overlap": True, "cross": cmd, "target": "running"})
+    for cmd in ("start", "step", "cleanup"):
+        rapid.append({"overlap": True, "cross": cmd, "target": "paused"})
     # the tail of the run thread's stop transition: after it has written STOPPED, before it parks again
     for cmd in ("start", "rut", "step"):
         rapid.append({"overlap": True, "tail": "after-STOPPED-write", "cmd": cmd})
@@ -389,6 +412,8 @@ def overlap_schedules(tier):
 
 
 def sched_id(c):
+    if "cross" in c:
+        return "cross/%s/%s" % (c["cross"], c["target"])
     if "rapid" in c:
         return "rapid/%s/%d" % (c["starter"], c["rapid"])
     if "reentrant" in c:
@@ -502,6 +527,101 @@ def grammar(out, log, warm_hex, sid):
 
 RAPID_PROG = {"clock": "float", "cap": 10 ** 9, "rep": {"start": fx(0.0), "warmup": fx(0.0), "length": fx(1e15)},
               "root": [["rel", fx(1.0), 0, 5]], "nodes": [[["rel", fx(1.0), 0, 5]]]}
+
+
+def run_cross(c):
+    """Simulator B is commanded from an event handler of simulator A (A's run thread is the commanding thread, as in
+    a master/slave or lock-step coupling of two models).  For B this is an ordinary command from another thread."""
+    from pydsol.core.utils import DSOLError
+    out = Outcome()
+    sid = sched_id(c)
+    out.label("overlap", "cross-simulator", "cmd=" + c["cross"])
+    out.nontrivial = True
+    ref = RefSim(PROGS[0])
+    ref.initialize()
+    ref.run()
+    hb = Harness(RAPID_PROG)
+    ha = Harness(PROGS[0])
+    b = hb.sim
+    box = {}
+    try:
+        hb.initialize()
+        ha.initialize()
+        if c["target"] == "running":
+            b.start()
+        else:
+            e0 = hb.run_piece(["run_up_to", fx(5.0)])
+            if e0 is not None:
+                raise Inconclusive("set-up run of B failed: %r" % e0)
+        n_b0 = None if c["target"] == "running" else len(hb.model.trace)
+
+        def on_exec(m, seq, node):
+            if "done" in box:
+                return
+            box["done"] = True
+            errs = []
+            for part in c["cross"].split("+"):
+                try:
+                    getattr(b, part)()
+                    errs.append(None)
+                except Exception as e:
+                    errs.append(e)
+                box.setdefault("states", []).append([b.run_state.name, b.replication_state.name])
+                if part == "stop":
+                    # an accepted stop() returns when B has stopped
+                    box["quiet_after_stop"] = hb.status()
+            box["errs"] = errs
+        ha.model.on_exec = on_exec
+        ea = ha.run_piece(["start"])
+        if ea is not None:
+            out.fail("cross-raised:" + sid, "A: " + repr(ea))
+        if "errs" not in box:
+            raise Inconclusive("handler of A did not run")
+        for part, e_ in zip(c["cross"].split("+"), box["errs"]):
+            if e_ is not None:
+                out.fail("cross-command-refused:%s:%s" % (part, sid), {"err": repr(e_), "states": box.get("states")})
+        parts = c["cross"].split("+")
+        if not out.disc:
+            if parts[0] == "stop":
+                if box["states"][0] != ["STOPPED", "STARTED"] or box.get("quiet_after_stop") != "quiet":
+                    out.fail("cross-stop-ineffective:" + sid, {"state_after_stop": box["states"][0],
+                                                               "status": box.get("quiet_after_stop")})
+            if parts[-1] == "start":
+                # B runs again: stop it from here
+                if b.run_state.name not in ("STARTING", "STARTED"):
+                    out.fail("cross-start-ineffective:" + sid, b.run_state.name)
+                else:
+                    b.stop()
+            st_ = hb.settle(allow_limbo=True)
+            if st_ != "quiet":
+                out.fail("overlap-limbo:" + sid, {"status": st_, "state": [b.run_state.name, b.replication_state.name]})
+            pair = (b.run_state.name, b.replication_state.name)
+            want = ("NOT_INITIALIZED", "NOT_INITIALIZED") if parts[-1] == "cleanup" else ("STOPPED", "STARTED")
+            if pair != want and not out.disc:
+                out.fail("overlap-inconsistent-state:" + sid, {"got": pair, "want": want})
+            if parts[-1] in ("step", "start") and not out.disc and n_b0 is not None and \
+                    not (len(hb.model.trace) > n_b0):
+                out.fail("cross-command-without-effect:" + sid, [n_b0, len(hb.model.trace)])
+            if not out.disc and parts[-1] != "cleanup":
+                names = [e[0] for e in hb.rec.log if e[0] in ("START", "STOP")]
+                if len(names) % 2 or any(n != ("START", "STOP")[i % 2] for i, n in enumerate(names)):
+                    out.fail("cross-start-stop-not-alternating:" + sid, names[:12])
+                # every event of B exactly once, in order
+                seqs = [t[0] for t in hb.model.trace if t[0] != "W"]
+                if seqs != list(range(len(seqs))):
+                    out.fail("overlap-events-lost-or-duplicated:" + sid, seqs[:10])
+        if [t for t in ha.model.trace if t[0] != "W"] != ref.model_trace() and not out.disc:
+            out.fail("overlap-events-lost-or-duplicated:" + sid, "simulator A")
+    finally:
+        try:
+            if b.run_state.name in ("STARTED", "STARTING"):
+                b.stop()
+        except Exception:
+            pass
+        if hb.finish() or ha.finish():
+            out.fail("overlap-thread-leak:%s" % sid, None)
+    out.info = {"schedule": sid}
+    return out
 
 
 def run_rapid(c):
@@ -769,6 +889,8 @@ def run_overlap(c):
     from pydsol.core.utils import DSOLError
     if "tail" in c:
         return run_tail(c)
+    if "cross" in c:
+        return run_cross(c)
     if "rapid" in c:
         return run_rapid(c)
     if "reentrant" in c:
